@@ -1,6 +1,7 @@
 mod chooser;
 mod msgs;
 mod net;
+mod peer;
 mod props;
 mod refcodec;
 mod runner;
